@@ -453,3 +453,26 @@ def shrink(inp, still_fails, candidates, budget=200):
         else:
             break
     return cur
+
+
+def source_drift():
+    """files of the doctrans package whose syntax tree differs from the record the model was last validated against
+    (source_baseline.json); [] when the tree under test is that very code"""
+    import ast
+    import glob
+    import hashlib
+
+    bp = os.path.join(VERIF, "source_baseline.json")
+    if not os.path.exists(bp):
+        return [], {}
+    base = json.load(open(bp))
+    if base.get("python") != "%d.%d" % sys.version_info[:2]:
+        return [], {}  # (the digests are of ast.dump, which differs between interpreter versions: nothing to compare)
+    cur = {}
+    for p in sorted(glob.glob(os.path.join(REPO, "doctrans", "*.py"))):
+        try:
+            cur[os.path.relpath(p, REPO)] = hashlib.sha256(ast.dump(ast.parse(open(p).read())).encode()).hexdigest()[:20]
+        except SyntaxError:
+            cur[os.path.relpath(p, REPO)] = "syntax-error"
+    changed = sorted(f for f in set(cur) | set(base["files"]) if cur.get(f) != base["files"].get(f))
+    return changed, base.get("quick_wall_s", {})
